@@ -371,13 +371,14 @@ class Engine(osproxy.Sink):
                 if owner != top.actor:
                     self.violate('link-created-for-other-owner', '%s created %s -> %s' % (top.actor, name, owner),
                                  call=call)
-                must(name not in self.ref.tab, 'symlink succeeded on a held entry', name)
+                # (a link created behind the monitor's back is found by the listing comparison, not here)
                 self.ref.tab[name] = owner
                 top.bound.add(name)
                 for o in outer:
                     o.touched.add(name)
             elif error.errno == errno.EEXIST:
-                must(name in self.ref.tab, 'symlink EEXIST on a free entry', name)
+                if name not in self.ref.tab:        # created behind the monitor's back: the directory is the truth
+                    self.ref.tab[name] = model.listing(self.ad.dbdir).get(name, model.FILE)
                 top.refused.add(name)
         elif call == 'unlink' and error is None:
             cur = self.ref.tab.get(name)
@@ -706,7 +707,11 @@ class Engine(osproxy.Sink):
             if want != got:
                 self.violate('read-differs-from-table', '%s returned %s, table is %s' % (ad.fn(op), got, want))
         self.compare(op, exp.tab, post, pre, actor)
-        must(self.ref.tab == post, 'monitor lost track', self.ref.tab, post)
+        if self.ref.tab != post:
+            # the operation matched the reference model but changed the directory through calls the monitor does
+            # not see (not the observed os.symlink/unlink/rename of the module): the directory is the truth
+            self.ctx.count('monitor_resynced_from_directory')
+            self.ref.tab = dict(post)
 
     def compare(self, op, want, post, pre, actor):
         if want == post:
